@@ -295,9 +295,8 @@ undef(void)
 	entry = mapput(&macros, &k);
 	m = *entry;
 	if (m) {
+		/* the macro is not freed: it may be in use if this directive is inside its own invocation */
 		free(name);
-		free(m->param);
-		free(m->token);
 		*entry = NULL;
 	}
 	scan(&tok);
